@@ -405,6 +405,8 @@ var ExprThemes = map[string][]string{
 		".b tag = \"!!str\"", ".b tag |= \"!!str\"", ".a tag = (.b | tag)", ".a line_comment = \"note\"", ".a line_comment |= \"rel\"", ".a line_comment = .b",
 		". head_comment=\"top\"", ".c head_comment |= \"rel\"", ".c anchor = \"anc2\"", ".c anchor |= \"rel\"", "... comments=\"\"", "... comments |= \"c\"", ".a foot_comment = \"f\"", ".a foot_comment |= \"g\"",
 		".b | style", ".b | tag", ".a | line_comment", ".c | anchor",
+		// one right side, several matches on the left: the value belongs to the document, not to the expression
+		".e[].v = .a", ".d[] = .a", ".c[] = .id", ".e[].k = .b", "(.a, .b) = .id",
 	},
 	"regex": {
 		".c.y as $p | .e[] | select(.k | test(\"^\\($p)\")) | .v", ".c.y as $p | [.e[].k | test(\"^\\($p)\")]", ".id | test(\"d\\(.a)\")", ".id | sub(\"d\\(.a)\", \"D\")",
@@ -436,6 +438,8 @@ var ExprThemes = map[string][]string{
 		"with_dtf(\"2006-01-02T15:04:05Z\"; .t += \"3h\")", ".t | format_datetime(\"2006\")", ".t | format_datetime(\"Jan 2\")",
 	},
 	// plain expressions: what varies in this theme is the encoder / decoder object and its preferences
+	// evaluations without input (yq -n): every one starts from its own null document
+	"nullinput": {".name = \"first\"", ".count = 2", "length", ".a.b = 1", "{\"a\": 1}", ". // \"d\"", ".[0] = 1", "keys", ".", ".x |= 3", "[., .]", ". == null", "to_json", ".l += [1]"},
 	"encoderprefs": {".", ".", ".c", ".d", ".a", ".b", ".e", "[.a, .b]", "{\"k\": .c}", ".e[0]", ".id"},
 	"snippet": {
 		".a + .b", ".a * .b", ".a - .b", ".a > .b", ".a == .b", "[.a, .b] | sort", ".l | sort", ".l | max", ".l | min", ".l | unique", ".t += \"3h\"", ".t | format_datetime(\"2006-01-02\")", ".l | sort_by(.)", ".a % .b", "[.l[] | . + 1]",
@@ -446,7 +450,7 @@ var ExprThemes = map[string][]string{
 	},
 }
 
-var ExprThemeNames = []string{"assignops", "regex", "sort", "encode", "variables", "literals", "snippet", "datetime", "pathtypes", "goccy", "loadshared", "encoderprefs"}
+var ExprThemeNames = []string{"assignops", "regex", "sort", "encode", "variables", "literals", "snippet", "datetime", "pathtypes", "goccy", "loadshared", "encoderprefs", "nullinput"}
 
 var commentOpRe = regexp.MustCompile(`(head|line|foot)_comment\s*(\|=|=)?`)
 
